@@ -914,6 +914,9 @@ def _div(n: Poly, d: Poly) -> Poly:
     definitional atom (scaled), so that e.g. (-q a)/p and (w q a)/p are recognised as multiples of each other"""
     if not n.t:
         return ZERO
+    nc = _div_near_constant(n, d)
+    if nc is not None:
+        return nc
     cn, cd = _lead(n), _lead(d)
     key = (pkey(n.scale(1 / cn)), pkey(d.scale(1 / cd)))
     hit = CTX.div_canon.get(key)
@@ -924,6 +927,41 @@ def _div(n: Poly, d: Poly) -> Poly:
     q = CTX.def_div(n, d)
     if len(q.t) == 1 and () not in q.t:
         CTX.div_canon[key] = (q, cn, cd)
+    return q
+
+
+def _div_near_constant(n: Poly, d: Poly):
+    """d = c + r with |r| <= 1e-9 |c| over the whole input box (a sum that is constant up to rounding residues, e.g. the total of a
+    probability vector): n/d is written as the polynomial n/c plus a residual atom e := n/d - n/c, which is defined exactly
+    ((n/c + e) d == n) and bounded by interval arithmetic, |e| <= max|n| max|r| / (|c| (|c| - max|r|)).  Exact, and keeps products of
+    such quotients polynomial instead of products of opaque atoms."""
+    c = d.t.get((), 0)
+    if c == 0 or len(d.t) == 1:
+        return None
+    r = Poly({m: v for m, v in d.t.items() if m != ()})
+    rb = poly_absbound(r)
+    nb = poly_absbound(n)
+    if rb is None or nb is None or rb > abs(c) * Fraction(1, 10 ** 9):
+        return None
+    ctx = CTX
+    key = ("divnc", pkey(n), pkey(d))
+    hit = ctx.memo.get(key)
+    if hit is not None:
+        return hit
+    B = nb * rb / (abs(c) * (abs(c) - rb))
+    main = n.scale(1 / c)
+
+    def ev(env, n=n, d=d, c=c):
+        nv, dv = n.eval(env), d.eval(env)
+        if isinstance(dv, float) or isinstance(nv, float):
+            return nv / dv - nv / float(c)
+        return Fraction(nv) / Fraction(dv) - Fraction(nv) / c
+    a = ctx.fresh("dres", ev=ev, lo=-B, hi=B)
+    q = main.add(Poly.atom(a))
+    ctx.add_def(q.mul(d).z3() == n.z3())
+    ctx.add_def(z3.And(a.z3v >= _rv(-B), a.z3v <= _rv(B)))
+    ctx.stub_log.append(("near-constant-denominator", f"|n/d - n/c| <= {float(B):.2e}"))
+    ctx.memo[key] = q
     return q
 
 
@@ -1428,6 +1466,71 @@ def near_quotients(rel=1e-9):
             if close(n1, n2) and close(d1, d2):
                 out.append((Sym(Poly.atom(REG.atoms[i])), Sym(Poly.atom(REG.atoms[j])), f1 / f2))
     return out
+
+
+def poly_absbound(p: Poly):
+    """upper bound of |p| over the atom boxes (None when an atom is unbounded)"""
+    tot = 0
+    for m, c in p.t.items():
+        b = abs(c)
+        for i in m:
+            a = REG.atoms[i]
+            if a.lo is None or a.hi is None:
+                return None
+            b = b * frac(max(abs(a.lo), abs(a.hi)))
+        tot += b
+    return tot
+
+
+def derive_near_quotient_facts(tol=1e-8, rel=1e-9):
+    """For every pair of near-duplicate quotients q_a = n_a/d_a, q_b = n_b/d_b (near_quotients) derive |q_a - f q_b| <= tol and add it as a
+    fact of the path, by arithmetic rather than by an NRA query:
+        (q_a - f q_b) d_a d_b = n_a d_b - f n_b d_a =: r        (exact polynomial identity from the two definitions)
+        |r| <= eps over the input boxes                          (coefficient-wise interval bound; r has only rounding-size coefficients)
+        |d_a| >= delta, |d_b| >= delta on this path              (two solver queries each: `d < delta` unsat under the path's constraints)
+    hence |q_a - f q_b| <= eps / delta^2.  Pairs for which this does not reach tol are left alone.  Returns the number of facts added."""
+    ctx = CTX
+    if not ctx.active or ctx.feas is None:
+        return 0
+    added = 0
+    s = ctx.feas
+
+    def lower(d):
+        for delta in (1e-2, 1e-3, 1e-4, 1e-5, 1e-6):
+            dv = _rv(frac(delta))
+            e = d.z3()
+            for sign in (1, -1):
+                s.push()
+                s.add(e < dv if sign == 1 else e > -dv)
+                r = str(s.check())
+                s.pop()
+                if r == "unsat":
+                    return frac(delta)
+        return None
+    lows = {}
+    for qa, qb, f in near_quotients(rel):
+        ia = next(iter(qa.re.t))[0]
+        ib = next(iter(qb.re.t))[0]
+        na, da = ctx.div_info[ia]
+        nb, db = ctx.div_info[ib]
+        r = na.mul(db).sub(nb.mul(da).scale(f))
+        eps = poly_absbound(r)
+        if eps is None:
+            continue
+        for i_, d_ in ((ia, da), (ib, db)):
+            if i_ not in lows:
+                lows[i_] = lower(d_)
+        if lows[ia] is None or lows[ib] is None:
+            continue
+        bound = eps / (lows[ia] * lows[ib])
+        if bound > frac(tol):
+            continue
+        diff = qa.re.sub(qb.re.scale(f)).z3()
+        t = _rv(frac(tol))
+        ctx.add_def(z3.And(diff <= t, diff >= -t))
+        ctx.stub_log.append(("near-quotient-fact", f"|q{ia} - {float(f):.6g} q{ib}| <= {tol} (eps={float(eps):.2e}, delta={float(lows[ia]):.0e},{float(lows[ib]):.0e})"))
+        added += 1
+    return added
 
 
 class PathResult:
